@@ -2,15 +2,13 @@ package sim
 
 import (
 	"bytes"
-	"context"
+	"encoding/binary"
 	"fmt"
-	"net"
 	"sort"
+	"time"
 
 	"github.com/tsuna/gohbase/pb"
 	"google.golang.org/protobuf/proto"
-
-	"verif/vrt"
 )
 
 // Region of the simulated cluster.
@@ -21,37 +19,293 @@ type Region struct {
 	Server      string
 }
 
+// Name is table,start,id.hash. ; the hash depends on the whole identity.
 func (r *Region) Name() []byte {
-	return []byte(fmt.Sprintf("%s,%s,%d.%08x.", r.Table, r.Start, r.ID, len(r.Stop)*31+len(r.Start)))
+	h := uint32(2166136261)
+	for _, c := range []byte(fmt.Sprintf("%s|%s|%s|%d", r.Table, r.Start, r.Stop, r.ID)) {
+		h = (h ^ uint32(c)) * 16777619
+	}
+	return []byte(fmt.Sprintf("%s,%s,%d.%08x.", r.Table, r.Start, r.ID, h))
 }
+
 func (r *Region) Contains(key []byte) bool {
 	return bytes.Compare(key, r.Start) >= 0 && (len(r.Stop) == 0 || bytes.Compare(key, r.Stop) < 0)
 }
 
-// Exec is one executed request as seen by a server.
-type Exec struct {
-	Server, Region, Method string
-	Key                    []byte
+func (r *Region) String() string {
+	return fmt.Sprintf("%s[%q,%q)#%d@%s", r.Table, r.Start, r.Stop, r.ID, r.Server)
 }
 
-// Cluster is the simulated HBase cluster.
+// Exec is one operation executed by a simulated regionserver.
+type Exec struct {
+	Seq    int
+	Server string
+	Region string
+	Kind   string
+	Row    string
+	Ident  any
+	At     time.Duration
+	Frame  int // request frame number on the server (tier W), 0 in tier L
+}
+
+// MetaScan is one lookup served by the simulated hbase:meta.
+type MetaScan struct {
+	StartRow string
+	At       time.Duration
+	Found    string
+}
+
+// Attempt is any request that reached a server (executed or refused), for timing oracles.
+type Attempt struct {
+	Server, Region, Kind, Outcome string
+	At                             time.Duration
+}
+
+// OpResult is the outcome of one operation.
+type OpResult struct {
+	Class, Stack string // exception (Class == "" means success)
+	Cells        []KV
+	NoAnswer     bool // the server stays silent
+}
+
+// Cluster is the simulated HBase cluster: regions, servers, hbase:meta,
+// ZooKeeper contents, scripted transient behaviour, and observers.
 type Cluster struct {
-	Regions   []*Region
-	MetaAddr  string
+	Regions    []*Region
+	MetaAddr   string
+	MasterAddr string
+	Down       map[string]bool     // server refuses connections
+	Silent     map[string]bool     // server accepts requests but never answers
+	Hold       map[string]bool     // row key -> the answer to user operations on it is held back (slow server)
+	Script     map[string][]string // region name (or table name, or "*") -> exception classes for the next operations
+	SrvScript  map[string][]string // server -> header-level exception classes for the next requests
+	ZKScript   []string            // errors for the next ZooKeeper lookups ("" = answer)
+	Counters   map[string]int64    // increment / append model table
+	Now        func() time.Duration
+
+	Log       []Exec
+	Attempts  []Attempt
+	MetaScans []MetaScan
 	Dials     map[string]int
 	Open      map[string]int
-	Conns     []*Conn
-	Log       []Exec
-	MetaScans int
-	Errors    []string // protocol errors seen by servers (independent decoder)
+	MaxOpen   map[string]int
+	ZKLookups []time.Duration
+	ZKAfterClose int
+	Errors    []string // protocol errors seen by servers
+	nextID    uint64
+	resets    map[string][]func() // server -> live connections' reset callbacks
 }
 
 func NewCluster(meta string) *Cluster {
-	return &Cluster{MetaAddr: meta, Dials: map[string]int{}, Open: map[string]int{}}
+	return &Cluster{MetaAddr: meta, MasterAddr: "master:16000", Down: map[string]bool{}, Silent: map[string]bool{},
+		Hold: map[string]bool{}, Script: map[string][]string{}, SrvScript: map[string][]string{}, Counters: map[string]int64{},
+		Dials: map[string]int{}, Open: map[string]int{}, MaxOpen: map[string]int{}, resets: map[string][]func(){},
+		Now: func() time.Duration { return 0 }, nextID: 100}
 }
 
+// AddTable lays out table with the given split points on the servers (round robin).
+func (c *Cluster) AddTable(table string, splits []string, servers []string) {
+	prev := ""
+	for i := 0; i <= len(splits); i++ {
+		stop := ""
+		if i < len(splits) {
+			stop = splits[i]
+		}
+		c.nextID++
+		c.Regions = append(c.Regions, &Region{Table: table, Start: []byte(prev), Stop: []byte(stop), ID: c.nextID, Server: servers[i%len(servers)]})
+		prev = stop
+	}
+}
 
-func cmpTuple(at, ak, ai, bt, bk, bi []byte) int {
+func (c *Cluster) ByName(name []byte) *Region {
+	for _, r := range c.Regions {
+		if bytes.Equal(r.Name(), name) {
+			return r
+		}
+	}
+	return nil
+}
+
+// Owner returns the region currently containing (table,key).
+func (c *Cluster) Owner(table string, key []byte) *Region {
+	for _, r := range c.Regions {
+		if r.Table == table && r.Contains(key) {
+			return r
+		}
+	}
+	return nil
+}
+
+// ---- events ---------------------------------------------------------------
+
+func (c *Cluster) Move(r *Region, to string) { r.Server = to }
+
+// Split replaces r by two daughters (new ids) at key.
+func (c *Cluster) Split(r *Region, key string, s1, s2 string) (*Region, *Region) {
+	c.nextID++
+	a := &Region{Table: r.Table, Start: r.Start, Stop: []byte(key), ID: c.nextID, Server: s1}
+	c.nextID++
+	b := &Region{Table: r.Table, Start: []byte(key), Stop: r.Stop, ID: c.nextID, Server: s2}
+	c.remove(r)
+	c.Regions = append(c.Regions, a, b)
+	return a, b
+}
+
+// Merge replaces two adjacent regions by one (new id).
+func (c *Cluster) Merge(a, b *Region, server string) *Region {
+	c.nextID++
+	m := &Region{Table: a.Table, Start: a.Start, Stop: b.Stop, ID: c.nextID, Server: server}
+	c.remove(a)
+	c.remove(b)
+	c.Regions = append(c.Regions, m)
+	return m
+}
+
+func (c *Cluster) DropTable(table string) {
+	var keep []*Region
+	for _, r := range c.Regions {
+		if r.Table != table {
+			keep = append(keep, r)
+		}
+	}
+	c.Regions = keep
+}
+
+func (c *Cluster) remove(r *Region) {
+	for i, x := range c.Regions {
+		if x == r {
+			c.Regions = append(c.Regions[:i:i], c.Regions[i+1:]...)
+			return
+		}
+	}
+}
+
+// Crash takes a server down: new connections are refused and live ones are reset.
+func (c *Cluster) Crash(addr string) {
+	c.Down[addr] = true
+	c.ResetConns(addr)
+}
+
+// ResetConns resets every live connection to addr (the server stays up).
+func (c *Cluster) ResetConns(addr string) {
+	rs := c.resets[addr]
+	c.resets[addr] = nil
+	for _, f := range rs {
+		f()
+	}
+}
+
+// OnReset registers a live connection's reset callback.
+func (c *Cluster) OnReset(addr string, f func()) { c.resets[addr] = append(c.resets[addr], f) }
+
+func (c *Cluster) Dialed(addr string) {
+	c.Dials[addr]++
+}
+func (c *Cluster) Opened(addr string) {
+	c.Open[addr]++
+	if c.Open[addr] > c.MaxOpen[addr] {
+		c.MaxOpen[addr] = c.Open[addr]
+	}
+}
+func (c *Cluster) Closed(addr string) { c.Open[addr]-- }
+
+// ---- operations -----------------------------------------------------------
+
+const (
+	ClsNSRE         = "org.apache.hadoop.hbase.NotServingRegionException"
+	ClsRegionMoved  = "org.apache.hadoop.hbase.exceptions.RegionMovedException"
+	ClsRegionOpen   = "org.apache.hadoop.hbase.exceptions.RegionOpeningException"
+	ClsTooBusy      = "org.apache.hadoop.hbase.RegionTooBusyException"
+	ClsCallQueue    = "org.apache.hadoop.hbase.CallQueueTooBigException"
+	ClsThrottle     = "org.apache.hadoop.hbase.quotas.RpcThrottlingException"
+	ClsServerStop   = "org.apache.hadoop.hbase.regionserver.RegionServerStoppedException"
+	ClsServerAbort  = "org.apache.hadoop.hbase.regionserver.RegionServerAbortedException"
+	ClsApp          = "org.apache.hadoop.hbase.DoNotRetryIOException"
+	ClsNoSuchFamily = "org.apache.hadoop.hbase.regionserver.NoSuchColumnFamilyException"
+)
+
+func (c *Cluster) pop(m map[string][]string, key string) (string, bool) {
+	q := m[key]
+	if len(q) == 0 {
+		return "", false
+	}
+	m[key] = q[1:]
+	return q[0], true
+}
+
+func (c *Cluster) attempt(addr, region, kind, outcome string) {
+	c.Attempts = append(c.Attempts, Attempt{Server: addr, Region: region, Kind: kind, Outcome: outcome, At: c.Now()})
+}
+
+// ExecOp executes one single-row operation addressed to regionName on server addr.
+func (c *Cluster) ExecOp(addr string, regionName []byte, kind string, row []byte, ident any, frame int) OpResult {
+	if c.Silent[addr] {
+		c.attempt(addr, string(regionName), kind, "silent")
+		return OpResult{NoAnswer: true}
+	}
+	if kind != "exists" && c.Hold[string(row)] {
+		c.attempt(addr, string(regionName), kind, "held")
+		return OpResult{NoAnswer: true}
+	}
+	if cls, ok := c.pop(c.SrvScript, addr); ok {
+		c.attempt(addr, string(regionName), kind, cls)
+		return OpResult{Class: cls, Stack: "scripted server exception"}
+	}
+	if string(regionName) == "hbase:meta,,1" {
+		// only the client's probe touches hbase:meta with a single-row operation
+		if addr != c.MetaAddr {
+			c.attempt(addr, string(regionName), kind, ClsNSRE)
+			return OpResult{Class: ClsNSRE, Stack: "hbase:meta is not online on " + addr}
+		}
+		if cls, ok := c.pop(c.Script, "hbase:meta,,1"); ok {
+			c.attempt(addr, string(regionName), kind, cls)
+			return OpResult{Class: cls, Stack: "scripted meta exception"}
+		}
+		c.attempt(addr, string(regionName), kind, "ok")
+		return OpResult{}
+	}
+	r := c.ByName(regionName)
+	if r == nil || r.Server != addr || !r.Contains(row) {
+		c.attempt(addr, string(regionName), kind, ClsNSRE)
+		return OpResult{Class: ClsNSRE, Stack: fmt.Sprintf("region %s is not online on %s", regionName, addr)}
+	}
+	for _, key := range []string{string(regionName), r.Table, "*"} {
+		if q := c.Script[key]; kind == "exists" && len(q) > 0 && (q[0] == ClsNoSuchFamily || q[0] == ClsApp) {
+			continue // an application-level exception is raised by a user operation, never by the client's probe
+		}
+		if cls, ok := c.pop(c.Script, key); ok {
+			c.attempt(addr, string(regionName), kind, cls)
+			return OpResult{Class: cls, Stack: "scripted region exception"}
+		}
+	}
+	c.attempt(addr, string(regionName), kind, "ok")
+	c.Log = append(c.Log, Exec{Seq: len(c.Log) + 1, Server: addr, Region: string(r.Name()), Kind: kind, Row: string(row), Ident: ident, At: c.Now(), Frame: frame})
+	switch kind {
+	case "get":
+		return OpResult{Cells: []KV{{Row: row, Family: []byte("f"), Qualifier: []byte("q"), Value: append([]byte("v:"), row...), TS: 7, Type: 4}}}
+	case "exists":
+		return OpResult{}
+	case "increment", "append":
+		c.Counters[r.Table+"/"+string(row)]++
+		v := make([]byte, 8)
+		binary.BigEndian.PutUint64(v, uint64(c.Counters[r.Table+"/"+string(row)]))
+		return OpResult{Cells: []KV{{Row: row, Family: []byte("f"), Qualifier: []byte("q"), Value: v, TS: 7, Type: 4}}}
+	}
+	return OpResult{}
+}
+
+// ExecCount returns how often the call with the given identity was executed.
+func (c *Cluster) ExecCount(ident any) int {
+	n := 0
+	for _, e := range c.Log {
+		if e.Ident == ident {
+			n++
+		}
+	}
+	return n
+}
+
+func cmpNames(at, ak, ai, bt, bk, bi []byte) int {
 	if c := bytes.Compare(at, bt); c != 0 {
 		return c
 	}
@@ -61,7 +315,7 @@ func cmpTuple(at, ak, ai, bt, bk, bi []byte) int {
 	return bytes.Compare(ai, bi)
 }
 
-func splitName(n []byte) (t, k, i []byte) {
+func splitRegionName(n []byte) (t, k, i []byte) {
 	a := bytes.IndexByte(n, ',')
 	b := bytes.LastIndexByte(n, ',')
 	if a < 0 {
@@ -73,16 +327,8 @@ func splitName(n []byte) (t, k, i []byte) {
 	return n[:a], n[a+1 : b], n[b+1:]
 }
 
-func (c *Cluster) byName(name []byte) *Region {
-	for _, r := range c.Regions {
-		if bytes.Equal(r.Name(), name) {
-			return r
-		}
-	}
-	return nil
-}
-
-func metaCells(r *Region) []KV {
+// MetaCells builds the hbase:meta row of a region.
+func MetaCells(r *Region) []KV {
 	ns, tb := []byte("default"), []byte(r.Table)
 	if i := bytes.IndexByte(tb, ':'); i >= 0 {
 		ns, tb = tb[:i], tb[i+1:]
@@ -96,148 +342,63 @@ func metaCells(r *Region) []KV {
 	}
 }
 
-func excResp(class, msg string) *pb.ExceptionResponse {
-	return &pb.ExceptionResponse{ExceptionClassName: proto.String(class), StackTrace: proto.String(msg)}
-}
-
-// exec handles one request on server addr.
-func (c *Cluster) exec(addr string, f *Frame) (proto.Message, *pb.ExceptionResponse, []KV) {
-	switch req := f.Req.(type) {
-	case *pb.ScanRequest:
-		if string(req.GetRegion().GetValue()) != "hbase:meta,,1" || addr != c.MetaAddr {
-			return nil, excResp("org.apache.hadoop.hbase.NotServingRegionException", "not meta"), nil
-		}
-		c.MetaScans++
-		st, sk, si := splitName(req.GetScan().GetStartRow())
-		stop := req.GetScan().GetStopRow()
-		var best *Region
-		rs := append([]*Region(nil), c.Regions...)
-		sort.Slice(rs, func(i, j int) bool {
-			at, ak, ai := splitName(rs[i].Name())
-			bt, bk, bi := splitName(rs[j].Name())
-			return cmpTuple(at, ak, ai, bt, bk, bi) < 0
-		})
-		for _, r := range rs {
-			t, k, i := splitName(r.Name())
-			if cmpTuple(t, k, i, st, sk, si) <= 0 && bytes.Compare(t, stop) >= 0 {
-				best = r
-			}
-		}
-		resp := &pb.ScanResponse{MoreResults: proto.Bool(false), MoreResultsInRegion: proto.Bool(false)}
-		if best == nil {
-			return resp, nil, nil
-		}
-		resp.CellsPerResult = []uint32{2}
-		resp.PartialFlagPerResult = []bool{false}
-		return resp, nil, metaCells(best)
-	case *pb.GetRequest:
-		if string(req.GetRegion().GetValue()) == "hbase:meta,,1" && addr == c.MetaAddr {
-			return &pb.GetResponse{Result: &pb.Result{Exists: proto.Bool(false)}}, nil, nil
-		}
-		r := c.byName(req.GetRegion().GetValue())
-		if r == nil || r.Server != addr || !r.Contains(req.GetGet().GetRow()) {
-			return nil, excResp("org.apache.hadoop.hbase.NotServingRegionException", "nsre"), nil
-		}
-		c.Log = append(c.Log, Exec{addr, string(r.Name()), "Get", req.GetGet().GetRow()})
-		if req.GetGet().GetExistenceOnly() {
-			return &pb.GetResponse{Result: &pb.Result{Exists: proto.Bool(false)}}, nil, nil
-		}
-		n := int32(1)
-		return &pb.GetResponse{Result: &pb.Result{AssociatedCellCount: &n}}, nil,
-			[]KV{{Row: req.GetGet().GetRow(), Family: []byte("f"), Qualifier: []byte("q"),
-				Value: append([]byte("v:"), req.GetGet().GetRow()...), TS: 7, Type: 4}}
-	case *pb.MultiRequest:
-		resp := &pb.MultiResponse{}
-		var cells []KV
-		for _, ra := range req.GetRegionAction() {
-			rar := &pb.RegionActionResult{}
-			r := c.byName(ra.GetRegion().GetValue())
-			for _, a := range ra.GetAction() {
-				var row []byte
-				if a.Get != nil {
-					row = a.Get.GetRow()
-				} else {
-					row = a.Mutation.GetRow()
-				}
-				if r == nil || r.Server != addr || !r.Contains(row) {
-					rar.ResultOrException = append(rar.ResultOrException, &pb.ResultOrException{Index: a.Index,
-						Exception: &pb.NameBytesPair{Name: proto.String("org.apache.hadoop.hbase.NotServingRegionException"), Value: []byte("nsre")}})
-					continue
-				}
-				c.Log = append(c.Log, Exec{addr, string(r.Name()), "Multi", row})
-				if a.Get != nil {
-					n := int32(1)
-					rar.ResultOrException = append(rar.ResultOrException, &pb.ResultOrException{Index: a.Index,
-						Result: &pb.Result{AssociatedCellCount: &n}})
-					cells = append(cells, KV{Row: row, Family: []byte("f"), Qualifier: []byte("q"),
-						Value: append([]byte("v:"), row...), TS: 7, Type: 4})
-				} else {
-					rar.ResultOrException = append(rar.ResultOrException, &pb.ResultOrException{Index: a.Index,
-						Result: &pb.Result{}})
-				}
-			}
-			resp.RegionActionResult = append(resp.RegionActionResult, rar)
-		}
-		return resp, nil, cells
+// ExecMetaLookup serves the reversed one-row scan the client uses to locate a
+// region: the greatest region name <= startRow in (table, start key, id) tuple
+// order whose table is >= stopRow. It is independent of the client's comparator.
+func (c *Cluster) ExecMetaLookup(addr string, startRow, stopRow []byte) (OpResult, *Region) {
+	if c.Silent[addr] {
+		c.attempt(addr, "hbase:meta,,1", "metascan", "silent")
+		return OpResult{NoAnswer: true}, nil
 	}
-	return nil, excResp("org.apache.hadoop.hbase.DoNotRetryIOException", "unsupported"), nil
-}
-
-// Dialer returns a region dialer that attaches a server thread per connection.
-func (c *Cluster) Dialer() func(ctx context.Context, network, addr string) (net.Conn, error) {
-	return func(ctx context.Context, network, addr string) (net.Conn, error) {
-		vrt.Yield("dial")
-		c.Dials[addr]++
-		c.Open[addr]++
-		conn := &Conn{Name: addr}
-		c.Conns = append(c.Conns, conn)
-		vrt.GoNamed("srv:"+addr, func() { c.serve(addr, conn) })
-		return conn, nil
+	if cls, ok := c.pop(c.SrvScript, addr); ok {
+		c.attempt(addr, "hbase:meta,,1", "metascan", cls)
+		return OpResult{Class: cls, Stack: "scripted server exception"}, nil
 	}
-}
-
-func (c *Cluster) serve(addr string, conn *Conn) {
-	defer func() { c.Open[addr]-- }()
-	vrt.Await("srv.preamble", func() bool {
-		if conn.Closed {
-			return true
-		}
-		if len(conn.C2S) < 10 {
-			return false
-		}
-		return len(conn.C2S) >= 10+int(uint32(conn.C2S[6])<<24|uint32(conn.C2S[7])<<16|uint32(conn.C2S[8])<<8|uint32(conn.C2S[9]))
+	if addr != c.MetaAddr {
+		c.attempt(addr, "hbase:meta,,1", "metascan", ClsNSRE)
+		return OpResult{Class: ClsNSRE, Stack: "hbase:meta is not online on " + addr}, nil
+	}
+	if cls, ok := c.pop(c.Script, "hbase:meta,,1"); ok {
+		c.attempt(addr, "hbase:meta,,1", "metascan", cls)
+		return OpResult{Class: cls, Stack: "scripted meta exception"}, nil
+	}
+	c.attempt(addr, "hbase:meta,,1", "metascan", "ok")
+	st, sk, si := splitRegionName(startRow)
+	rs := append([]*Region(nil), c.Regions...)
+	sort.Slice(rs, func(i, j int) bool {
+		at, ak, ai := splitRegionName(rs[i].Name())
+		bt, bk, bi := splitRegionName(rs[j].Name())
+		return cmpNames(at, ak, ai, bt, bk, bi) < 0
 	})
-	if conn.Closed {
-		return
-	}
-	if string(conn.C2S[:6]) != "HBas\x00\x50" {
-		c.Errors = append(c.Errors, "bad preamble")
-	}
-	hl := int(uint32(conn.C2S[6])<<24 | uint32(conn.C2S[7])<<16 | uint32(conn.C2S[8])<<8 | uint32(conn.C2S[9]))
-	var ch pb.ConnectionHeader
-	if err := proto.Unmarshal(conn.C2S[10:10+hl], &ch); err != nil {
-		c.Errors = append(c.Errors, "bad connection header: "+err.Error())
-	}
-	conn.C2S = conn.C2S[10+hl:]
-	for {
-		vrt.Await("srv.frame", func() bool {
-			_, _, ok := SplitFrame(conn.C2S)
-			return ok || conn.Closed
-		})
-		if conn.Closed {
-			return
+	var best *Region
+	for _, r := range rs {
+		t, k, i := splitRegionName(r.Name())
+		if cmpNames(t, k, i, st, sk, si) <= 0 && bytes.Compare(t, stopRow) >= 0 {
+			best = r
 		}
-		var fb []byte
-		fb, conn.C2S, _ = SplitFrame(conn.C2S)
-		f, err := ParseRequest(fb)
-		if err != nil {
-			c.Errors = append(c.Errors, err.Error())
-			conn.SrvClose = true
-			return
-		}
-		resp, exc, cells := c.exec(addr, f)
-		out := EncodeResponse(f.Header.GetCallId(), resp, exc, cells)
-		vrt.Yield("srv.respond")
-		conn.S2C = append(conn.S2C, out...)
 	}
+	ms := MetaScan{StartRow: string(startRow), At: c.Now()}
+	if best == nil {
+		c.MetaScans = append(c.MetaScans, ms)
+		return OpResult{}, nil
+	}
+	ms.Found = string(best.Name())
+	c.MetaScans = append(c.MetaScans, ms)
+	return OpResult{Cells: MetaCells(best)}, best
+}
+
+// ZKLocate answers a ZooKeeper lookup for meta or master.
+func (c *Cluster) ZKLocate(master bool) (string, error) {
+	c.ZKLookups = append(c.ZKLookups, c.Now())
+	if len(c.ZKScript) > 0 {
+		e := c.ZKScript[0]
+		c.ZKScript = c.ZKScript[1:]
+		if e != "" {
+			return "", fmt.Errorf("zk: %s", e)
+		}
+	}
+	if master {
+		return c.MasterAddr, nil
+	}
+	return c.MetaAddr, nil
 }
